@@ -113,7 +113,7 @@ def run_canaries(prop):
     sd = os.path.join(ROOT, "seeded")
     repo = os.environ.get("PVC_REPO", "/repo")
     for d in sorted(os.listdir(sd)) if os.path.isdir(sd) else []:
-        if d.split("-")[0].rstrip("bcdefghij") != prop or not os.path.exists(os.path.join(sd, d, "patch.diff")):
+        if d.split("-")[0].rstrip("abcdefghijklmnopqrstuvwxyz") != prop or not os.path.exists(os.path.join(sd, d, "patch.diff")):
             continue
         tmp = tempfile.mkdtemp(prefix="pvc_canary_")
         try:
